@@ -50,6 +50,24 @@ def frame_list(ip, name='frames', minlen=1):
     return ip.st.alloc(lst, 'l'), lst
 
 
+def view_frames(ip, lst):
+    """list of frames -> list of frame records (objects in the list are read through)"""
+    def at(i, lst=lst):
+        x = lst.at(i)
+        if isinstance(x, ORef):
+            o = ip.st.obj(x)
+            x = Rec(o.cls, **o.f)
+        if isinstance(x, Rec) and isinstance(x.f.get('payload'), MRef):
+            b = ip.bytes_of(x.f['payload'])
+            x = Rec(x.cls, **dict(x.f, payload=SBytes(BYTES, b.n, b.at, b.arr)))
+        return x
+    return SList(lst.n, at, base=lst.base or lst)
+
+
+def same_list(x, y):
+    return (getattr(x, 'base', None) or x) is (getattr(y, 'base', None) or y)
+
+
 def is_concat_of(ip, payload, frames):
     """payload is the in-order concatenation of the frames' payloads (structural: the value must
     come from b''.join over a list whose k-th element equals frames[k].payload)"""
@@ -176,7 +194,7 @@ class Decompress(Contract):
     def ensures(self, ip, a, old, res):
         st = ip.st
         z0 = old.get(a.self, '_decompressobj')
-        frames = st.mem[a.frames.ident] if isinstance(a.frames, MRef) else a.frames
+        frames = view_frames(ip, st.mem[a.frames.ident]) if isinstance(a.frames, MRef) else a.frames
         log = extworld.zlog(st, z0)[len(old.ghost.get(('zlog', z0.key), [])):]
         out = [('result-is-immutable-bytes', BoolVal(isinstance(res, SBytes) and res.kind == BYTES))]
         # the list comprehension over `frames` is logged once, at a generic index k
@@ -185,7 +203,7 @@ class Decompress(Contract):
             out.append(('inflater-fed-once-per-frame-then-the-4-byte-tail', BoolVal(shape)))
         if ip.reading == 'body' and shape:
             lst, k = log[0][3]
-            out.append(('every-frame-in-order', BoolVal(lst is frames)))
+            out.append(('every-frame-in-order', BoolVal(same_list(lst, frames))))
             out.append(('inflater-input-is-the-frame-payload', beq(log[0][1], frames.at(k).payload)))
             t = log[1][1]
             out.append(('tail-is-00-00-ff-ff', And(t.at(IntVal(0)) == 0, t.at(IntVal(1)) == 0, t.at(IntVal(2)) == 255, t.at(IntVal(3)) == 255)))
@@ -227,7 +245,7 @@ class MessageBuild(Contract):
         return dict(cls=M.Message, frames=lref, decompress=d)
 
     def requires(self, ip, a):
-        frames = ip.st.mem[a.frames.ident]
+        frames = view_frames(ip, ip.st.mem[a.frames.ident])
         return [('at-least-one-frame', frames.n >= 1)]
 
     def modifies(self, ip, a):
@@ -240,12 +258,26 @@ class MessageBuild(Contract):
                 Raises(errors.ProtocolError, 'one-byte-close-payload', when=None, modifies=None)]
 
     def result(self, ip, a, old):
+        """call-site reading: the message the caller gets, as a function of the frames"""
         st = ip.st
-        frames = st.mem[a.frames.ident]
+        frames = view_frames(ip, st.mem[a.frames.ident])
         f0 = frames.at(IntVal(0))
-        payload = mk(ip, T.Bytes(BYTES), 'msg_payload')
-        payload.meta = dict(concat_of=frames, inflated=None)
-        op = f0.opcode
+        use_inflate = And(iv(f0.rsv1) != 0, BoolVal(a.decompress is not None))
+        if st.decide(use_inflate, 'inflate'):
+            payload = mk(ip, T.Bytes(BYTES), 'inflated_payload')
+            payload.meta = dict(inflate_of=frames)
+        else:
+            n = frames.concrete_len()
+            if n is not None:
+                c = cat(BYTES, [ip.bytes_of(frames.at(IntVal(k)).payload) for k in range(n)])
+                payload = SBytes(BYTES, c.n, c.at, meta=dict(concat_of=frames))
+            else:
+                from pyvc.externals import join_bytes
+                lst = SList(frames.n, lambda i: SBytes(BYTES, ip.bytes_of(frames.at(i).payload).n, ip.bytes_of(frames.at(i).payload).at))
+                payload = join_bytes(ip, lst)
+                payload.meta = dict(payload.meta or {}, concat_of=frames)
+        st.assume(payload.n >= 0)
+        op = iv(f0.opcode)
         if st.decide(op == 2, 'binary'):
             return mk(ip, T.Obj(M.Binary, opcode=T.Const(2), data=T.Const(payload)), 'msg')
         if st.decide(op == 1, 'text'):
@@ -259,7 +291,11 @@ class MessageBuild(Contract):
             st.assume(payload.at(IntVal(0)) >= 0, payload.at(IntVal(0)) < 256, payload.at(IntVal(1)) >= 0, payload.at(IntVal(1)) < 256)
             rb = bslice(payload, IntVal(2), None)
             st.assume(sval.wf_utf8(rb.as_array(), rb.n))
-            return mk(ip, T.Obj(M.Close, opcode=T.Const(8), code=T.Const(code), reason=T.Const(SStr(sval.dec_utf8(rb.as_array(), rb.n)))), 'msg')
+            reason = SStr(sval.dec_utf8(rb.as_array(), rb.n))
+            # str.encode is the inverse of bytes.decode (assumed contract, DESIGN 4 C)
+            st.ghost.setdefault('assumed', set()).add("str.encode('utf-8') is the inverse of bytes.decode('utf-8')")
+            st.assume(sval.utf8_len(reason.t) == rb.n)
+            return mk(ip, T.Obj(M.Close, opcode=T.Const(8), code=T.Const(code), reason=T.Const(reason)), 'msg')
         if st.decide(op == 9, 'ping'):
             return mk(ip, T.Obj(M.Ping, opcode=T.Const(9), data=T.Const(payload)), 'msg')
         if st.decide(op == 10, 'pong'):
@@ -268,7 +304,7 @@ class MessageBuild(Contract):
 
     def ensures(self, ip, a, old, res):
         st = ip.st
-        frames = st.mem[a.frames.ident]
+        frames = view_frames(ip, st.mem[a.frames.ident])
         f0 = frames.at(IntVal(0))
         ok = isinstance(res, ORef) and issubclass(st.obj(res).cls, M.Message)
         out = [('returns-a-Message', BoolVal(ok))]
@@ -291,7 +327,7 @@ class MessageBuild(Contract):
             if isinstance(p, SBytes):
                 if (p.meta or {}).get('inflate_of') is not None:
                     out.append(('inflated-only-when-first-frame-has-RSV1-and-decompressor', use_inflate, ('C06',)))
-                    out.append(('inflater-was-given-exactly-these-frames', BoolVal(p.meta['inflate_of'] is frames), ('C06',)))
+                    out.append(('inflater-was-given-exactly-these-frames', BoolVal(same_list(p.meta['inflate_of'], frames)), ('C06',)))
                 else:
                     out.append(('not-inflated-only-without-RSV1-or-decompressor', Not(use_inflate), ('C06',)))
                     out += [(n, f, ('C01',)) for n, f in is_concat_of(ip, p, frames)]
